@@ -31,13 +31,17 @@ type charKind struct {
 	spd, hp, maxEnergy float64
 	spNeed, spAdd      int
 	ttA, ttS, ttU      model.TargetType
+	skillCheck         bool // registers a Skill.CanUse of its own (answers scripted per unit)
+	ultCheck           bool // registers an Ult.CanUse of its own
 }
 
 var charKinds = []charKind{
-	{100, 1000, 100, 1, 1, model.TargetType_ENEMIES, model.TargetType_ENEMIES, model.TargetType_ENEMIES},
-	{120, 800, 120, 1, 1, model.TargetType_ENEMIES, model.TargetType_ALLIES, model.TargetType_ALLIES},
-	{90, 1200, 80, 2, 2, model.TargetType_ENEMIES, model.TargetType_SELF, model.TargetType_SELF},
-	{100, 1000, 100, 3, 0, model.TargetType_ENEMIES, model.TargetType_ENEMIES, model.TargetType_ENEMIES},
+	{100, 1000, 100, 1, 1, model.TargetType_ENEMIES, model.TargetType_ENEMIES, model.TargetType_ENEMIES, false, false},
+	{120, 800, 120, 1, 1, model.TargetType_ENEMIES, model.TargetType_ALLIES, model.TargetType_ALLIES, false, false},
+	{90, 1200, 80, 2, 2, model.TargetType_ENEMIES, model.TargetType_SELF, model.TargetType_SELF, false, false},
+	{100, 1000, 100, 3, 0, model.TargetType_ENEMIES, model.TargetType_ENEMIES, model.TargetType_ENEMIES, false, false},
+	{110, 900, 100, 1, 1, model.TargetType_ENEMIES, model.TargetType_ENEMIES, model.TargetType_ENEMIES, true, false},
+	{95, 1100, 100, 1, 1, model.TargetType_ENEMIES, model.TargetType_ENEMIES, model.TargetType_ENEMIES, false, true},
 }
 
 var simFlags = []int{1, 3, 100}
@@ -48,6 +52,8 @@ type simRun struct {
 	scripts [][]term.T
 	acts    map[key.TargetID][]int
 	next    map[key.TargetID][]term.T
+	skchk   map[key.TargetID][]bool
+	ultchk  map[key.TargetID][]bool
 	ults    [][]term.T
 	lBattle []int
 	lAction []int
@@ -454,11 +460,35 @@ func registerSimContent() {
 			Element:    model.DamageType_PHYSICAL,
 			Path:       model.Path_HUNT,
 			MaxEnergy:  k.maxEnergy,
-			SkillInfo: character.SkillInfo{
-				Attack: character.Attack{SPAdd: k.spAdd, TargetType: k.ttA},
-				Skill:  character.Skill{SPNeed: k.spNeed, TargetType: k.ttS},
-				Ult:    character.Ult{TargetType: k.ttU},
-			},
+			SkillInfo: func() character.SkillInfo {
+				si := character.SkillInfo{
+					Attack: character.Attack{SPAdd: k.spAdd, TargetType: k.ttA},
+					Skill:  character.Skill{SPNeed: k.spNeed, TargetType: k.ttS},
+					Ult:    character.Ult{TargetType: k.ttU},
+				}
+				// the character's own checks answer from the unit's scripted list, indexed by the number
+				// of action scripts the unit has left (true beyond the list)
+				answer := func(l []bool, id key.TargetID) bool {
+					i := len(curSim.acts[id])
+					if i < len(l) {
+						return l[i]
+					}
+					return true
+				}
+				if k.skillCheck {
+					si.Skill.CanUse = func(_ engine.Engine, c info.CharInstance) bool {
+						id := c.(*vchar).id
+						return answer(curSim.skchk[id], id)
+					}
+				}
+				if k.ultCheck {
+					si.Ult.CanUse = func(_ engine.Engine, c info.CharInstance) bool {
+						id := c.(*vchar).id
+						return answer(curSim.ultchk[id], id)
+					}
+				}
+				return si
+			}(),
 		})
 	}
 	enemy.Register("verif_e", enemy.Config{
@@ -511,7 +541,8 @@ func intList(t term.T) []int {
 func runSim(in term.T) term.T {
 	simOnce.Do(registerSimContent)
 	_, a := term.Ctor(in) // mkCfg units scripts next ults lb la lh ld lhp lph1 lph2 latk limit budget
-	r := &simRun{acts: map[key.TargetID][]int{}, next: map[key.TargetID][]term.T{}, rev: map[key.TargetID]bool{}}
+	r := &simRun{acts: map[key.TargetID][]int{}, next: map[key.TargetID][]term.T{}, rev: map[key.TargetID]bool{},
+		skchk: map[key.TargetID][]bool{}, ultchk: map[key.TargetID][]bool{}}
 	curSim = r
 	cfg := &model.SimConfig{Settings: &model.SimulatorSettings{CycleLimit: uint32(term.Int(a[12]))}}
 	allWeak := []model.DamageType{}
@@ -520,12 +551,21 @@ func runSim(in term.T) term.T {
 	}
 	hpScale := enemy.Curve(enemy.Curve1)[1].HPScaling
 	for i, u := range term.List(a[0]) {
-		_, f := term.Ctor(u) // mkUD kind char spd maxhp maxen en0 spneed spadd tta tts ttu acts
+		_, f := term.Ctor(u) // mkUD kind char spd maxhp maxen en0 spneed spadd tta tts ttu acts skchk ultchk
 		id := key.TargetID(i + 1)
 		r.acts[id] = intList(f[11])
+		for _, b := range term.List(f[12]) {
+			r.skchk[id] = append(r.skchk[id], term.Bool(b))
+		}
+		for _, b := range term.List(f[13]) {
+			r.ultchk[id] = append(r.ultchk[id], term.Bool(b))
+		}
 		kind := int(term.Int(f[0]))
 		if term.Bool(f[1]) {
 			k := charKinds[kind]
+			if (len(r.skchk[id]) > 0) != k.skillCheck || (len(r.ultchk[id]) > 0) != k.ultCheck {
+				panic("inconsistent character description (own checks)")
+			}
 			if term.Float(f[2]) != k.spd || term.Float(f[3]) != k.hp || term.Float(f[4]) != k.maxEnergy {
 				panic("inconsistent character description")
 			}
